@@ -157,6 +157,12 @@ def main(check, argv=None):
         return 1 if bad else 0
 
     tier = args.tier
+    # replay artefacts of earlier runs of this check are stale
+    rdir = os.path.join(VERIF, "replays", check.id)
+    if os.path.isdir(rdir):
+        for name in os.listdir(rdir):
+            if name.endswith(".json"):
+                os.unlink(os.path.join(rdir, name))
     shards = check.shards(tier)
     budget = args.budget
     if budget is None:
